@@ -134,7 +134,17 @@ func main() {
 	maxReplay := flag.Int("maxreplay", 3, "max native replays per (label, known-id)")
 	stripP2P := flag.Bool("stripp2p", true, "overlay a copy of pkg/p2p/p2p.go whose Run body is stripped (quic-go does not build)")
 	pin := flag.String("pin", "", "concrete run: JSON file name->[values] pinning every nondet (translator validation)")
+	exact := flag.Bool("exactfmt", false, "render %d of symbolic integers exactly (digit variables) instead of opaquely")
+	summ := flag.String("summary", "", "comma separated summaries to enable (vaaid = (*VAAID).Bytes as an injective encoding of its fields)")
 	flag.Parse()
+	for _, x := range strings.Split(*summ, ",") {
+		if x != "" {
+			summaries[x] = true
+		}
+	}
+	if *exact {
+		exactFmt = true
+	}
 	parseRestrict(*restrictS)
 
 	t0 := time.Now()
